@@ -21,7 +21,6 @@ func bless(input OmegaInput) (output OmegaOutput) {
 	// if N_{a...+4C} not readable
 	offset := uint64(4 * types.CoresCount)
 	if !isReadable(a, offset, *input.VM.Memory) {
-		input.VM.Registers[7] = OOB
 		return OmegaOutput{
 			ExitReason: ExitPanic,
 			Addition:   input.Addition,
@@ -35,7 +34,6 @@ func bless(input OmegaInput) (output OmegaOutput) {
 	assignErr := decoder.Decode(rawData, &assignData)
 	if assignErr != nil {
 		pvmLogger.Errorf("host-call function \"bless\" decode assignData error : %v", assignErr)
-		input.VM.Registers[7] = OOB
 		return OmegaOutput{
 			ExitReason: ExitPanic,
 			Addition:   input.Addition,
@@ -44,7 +42,6 @@ func bless(input OmegaInput) (output OmegaOutput) {
 
 	offset, overflow := checkOverflow(12, n)
 	if overflow || !isReadable(o, offset, *input.VM.Memory) {
-		input.VM.Registers[7] = OOB
 		return OmegaOutput{
 			ExitReason: ExitPanic,
 			Addition:   input.Addition,
@@ -82,7 +79,6 @@ func bless(input OmegaInput) (output OmegaOutput) {
 	}
 
 	if accumErr != nil {
-		input.VM.Registers[7] = OOB
 		return OmegaOutput{
 			ExitReason: ExitPanic,
 			Addition:   input.Addition,
@@ -124,7 +120,6 @@ func assign(input OmegaInput) (output OmegaOutput) {
 
 	offset := uint64(32 * types.AuthQueueSize)
 	if !isReadable(o, offset, *input.VM.Memory) { // not readable, panic
-		input.VM.Registers[7] = OOB
 		return OmegaOutput{
 			ExitReason: ExitPanic,
 			Addition:   input.Addition,
@@ -191,7 +186,6 @@ func designate(input OmegaInput) (output OmegaOutput) {
 
 	offset := uint64(336 * types.ValidatorsCount)
 	if !isReadable(o, offset, *input.VM.Memory) { // not readable, panic
-		input.VM.Registers[7] = OOB
 		return OmegaOutput{
 			ExitReason: ExitPanic,
 			Addition:   input.Addition,
@@ -379,7 +373,6 @@ func upgrade(input OmegaInput) (output OmegaOutput) {
 
 	offset := uint64(32)
 	if !isReadable(o, offset, *input.VM.Memory) { // not readable, return
-		input.VM.Registers[7] = OOB
 		return OmegaOutput{
 			ExitReason: ExitPanic,
 			Addition:   input.Addition,
@@ -418,7 +411,6 @@ func transfer(input OmegaInput) (output OmegaOutput) {
 
 	d, a, l, o := input.VM.Registers[7], input.VM.Registers[8], input.VM.Registers[9], input.VM.Registers[10]
 	if !isReadable(o, uint64(types.TransferMemoSize), *input.VM.Memory) { // not readable, return
-		input.VM.Registers[7] = OOB
 		return OmegaOutput{
 			ExitReason: ExitPanic,
 			Addition:   input.Addition,
@@ -496,7 +488,6 @@ func eject(input OmegaInput) (output OmegaOutput) {
 
 	offset := uint64(32)
 	if !isReadable(o, offset, *input.VM.Memory) { // not readable, return
-		input.VM.Registers[7] = OOB
 		return OmegaOutput{
 			ExitReason: ExitPanic,
 			Addition:   input.Addition,
@@ -584,7 +575,6 @@ func query(input OmegaInput) (output OmegaOutput) {
 
 	offset := uint64(32)
 	if !isReadable(o, offset, *input.VM.Memory) { // not readable, return
-		input.VM.Registers[7] = OOB
 		return OmegaOutput{
 			ExitReason: ExitPanic,
 			Addition:   input.Addition,
@@ -709,7 +699,6 @@ func solicit(input OmegaInput) (output OmegaOutput) {
 	o, z := input.VM.Registers[7], input.VM.Registers[8]
 	offset := uint64(32)
 	if !isReadable(o, offset, *input.VM.Memory) {
-		input.VM.Registers[7] = OOB
 		return OmegaOutput{
 			ExitReason: ExitPanic,
 			Addition:   input.Addition,
@@ -762,7 +751,6 @@ func forget(input OmegaInput) (output OmegaOutput) {
 
 	offset := uint64(32)
 	if !isReadable(o, offset, *input.VM.Memory) { // not readable, return
-		input.VM.Registers[7] = OOB
 		return OmegaOutput{
 			ExitReason: ExitPanic,
 			Addition:   input.Addition,
@@ -863,7 +851,6 @@ func yield(input OmegaInput) (output OmegaOutput) {
 
 	offset := uint64(32)
 	if !isReadable(o, offset, *input.VM.Memory) {
-		input.VM.Registers[7] = OOB
 		return OmegaOutput{
 			ExitReason: ExitPanic,
 			Addition:   input.Addition,
@@ -891,7 +878,6 @@ func provide(input OmegaInput) (output OmegaOutput) {
 	// i = panic
 	offset := uint64(z)
 	if !isReadable(o, offset, *input.VM.Memory) {
-		input.VM.Registers[7] = OOB
 		return OmegaOutput{
 			ExitReason: ExitPanic,
 			Addition:   input.Addition,
